@@ -43,6 +43,8 @@ func eligible(prop string, p *progen.Prog) bool {
 		return emitters(p) > 0
 	case "C19":
 		return emitters(p) > 0
+	case "C03scale":
+		return p.Par != nil && len(p.Par.Colls) > 0
 	}
 	return true
 }
@@ -154,6 +156,9 @@ func Generate(rng *rand.Rand, prop, tier string, gomaxprocs int) *Desc {
 	d := &Desc{Engine: "l2", Prop: prop, GOMAXPROCS: gomaxprocs}
 	progs := eligibleProgs(prop)
 	nexec := 1
+	if prop == "C03scale" {
+		return generateScale(rng, tier, gomaxprocs, progs)
+	}
 	switch r := rng.Intn(10); {
 	case r >= 9:
 		nexec = 3
@@ -426,4 +431,37 @@ func pickPolicy(rng *rand.Rand, prop string) string {
 		names = append(names, "tick-greedy")
 	}
 	return names[rng.Intn(len(names))]
+}
+
+// generateScale: one Parallel over collections of 10^3..10^5 elements with a
+// small limit; the goroutine and in-flight bounds must not depend on the size.
+func generateScale(rng *rand.Rand, tier string, gmp int, progs []int) *Desc {
+	d := &Desc{Engine: "l2", Prop: "C03scale", GOMAXPROCS: gmp}
+	pi := progs[rng.Intn(len(progs))]
+	p := programs[pi].P
+	x := ExecD{Prog: pi, TaskOut: map[int]int{}, PredOut: map[int]int{}, Len: map[int]int{}, Colls: map[int]*CollD{}}
+	x.Conc = 1 + rng.Intn(4)
+	x.Bools = [2]bool{rng.Intn(2) == 0, false}
+	total := 0
+	for _, c := range p.Par.Colls {
+		n := 1000 + rng.Intn(3000)
+		if tier == "thorough" {
+			n = 10000 + rng.Intn(40000)
+		}
+		cd := &CollD{Fail: map[int]int{}}
+		cd.Vals = make([]uint64, n)
+		cd.Keys = make([]uint64, n)
+		for k := range cd.Vals {
+			cd.Vals[k] = uint64(k)*2654435761 + 1
+			cd.Keys[k] = uint64(k) + 1
+		}
+		x.Colls[c.ID] = cd
+		total += n
+	}
+	total += len(p.Par.Tasks) + len(p.Probes) + 40
+	d.Execs = []ExecD{x}
+	d.Policy = []string{"uniform", "starve-result", "worker-first", "caller-first"}[rng.Intn(4)]
+	d.Budget = 60 * total
+	d.FairAfter = d.Budget / 2
+	return d
 }
